@@ -126,12 +126,33 @@ def env_step_oracle(rep, scenario, state, act, fake_rand, draws):
     if abs(float(rew) - float(grew)) > 1e-6 or bool(done) != bool(gdone):
         bad.append("C13.agrees: step and generative_step disagree on reward/terminal flag")
     if not np.array_equal(env.current_state.tensor, ns.tensor): bad.append("C13.installs: current state is not the generative next state")
+    if not np.array_equal(state.tensor, before_T):
+        bad.append("C13.installs: step overwrote the State object that was current (a state handed out earlier changes under its holder)")
+    if np.shares_memory(env.current_state.tensor, state.tensor) and not np.array_equal(ns.tensor, before_T):
+        bad.append("C13.fresh: the new current state shares storage with the previous one")
     if env.steps != rep["steps0"] + 1: bad.append("C06.counter: step counter not incremented by one")
     want_lim = rep.get("step_limit") is not None and rep["steps0"] + 1 >= rep["step_limit"]
     if bool(lim) != bool(want_lim): bad.append(f"C06.limit-flag: flag {lim} but steps={rep['steps0'] + 1} limit={rep.get('step_limit')}")
     exp_shape = gobs.numpy_flat().shape if rep["modes"]["flat_obs"] else gobs.numpy().shape
     if tuple(o.shape) != tuple(exp_shape): bad.append("C10: observation shape")
     return {"clause_failures": bad}
+
+
+def _add_actions(scenario, sc):
+    """exploit / escalation tables for the environment-level oracles, including two definitions of the same
+    (service, os) and (process, os) pair (valid: the first definition is the one the parameterised space decodes to)"""
+    import nasim.scenarios.utils as u
+    osn, srvn, procn = names(sc)
+    scenario.scenario_dict[u.EXPLOITS] = {
+        "e_a": {u.EXPLOIT_SERVICE: srvn[0], u.EXPLOIT_OS: None, u.EXPLOIT_PROB: 1.0, u.EXPLOIT_COST: 1, u.EXPLOIT_ACCESS: 1},
+        "e_b": {u.EXPLOIT_SERVICE: srvn[-1], u.EXPLOIT_OS: osn[0], u.EXPLOIT_PROB: 0.5, u.EXPLOIT_COST: 2, u.EXPLOIT_ACCESS: 2},
+        "e_c": {u.EXPLOIT_SERVICE: srvn[0], u.EXPLOIT_OS: None, u.EXPLOIT_PROB: 0.25, u.EXPLOIT_COST: 3, u.EXPLOIT_ACCESS: 2}}
+    scenario.scenario_dict[u.PRIVESCS] = {
+        "p_a": {u.PRIVESC_PROCESS: procn[0], u.PRIVESC_OS: None, u.PRIVESC_PROB: 1.0, u.PRIVESC_COST: 1, u.PRIVESC_ACCESS: 2},
+        "p_b": {u.PRIVESC_PROCESS: procn[0], u.PRIVESC_OS: None, u.PRIVESC_PROB: 0.5, u.PRIVESC_COST: 2, u.PRIVESC_ACCESS: 2}}
+    scenario._e_map = None
+    scenario._pe_map = None
+    return 3, 2
 
 
 def env_action_mask_oracle(rep, scenario, state):
@@ -143,11 +164,7 @@ def env_action_mask_oracle(rep, scenario, state):
     import nasim.scenarios.utils as u
     sc = rep["scenario"]
     osn, srvn, procn = names(sc)
-    scenario.scenario_dict[u.EXPLOITS] = {
-        "e_a": {u.EXPLOIT_SERVICE: srvn[0], u.EXPLOIT_OS: None, u.EXPLOIT_PROB: 1.0, u.EXPLOIT_COST: 1, u.EXPLOIT_ACCESS: 1},
-        "e_b": {u.EXPLOIT_SERVICE: srvn[-1], u.EXPLOIT_OS: osn[0], u.EXPLOIT_PROB: 0.5, u.EXPLOIT_COST: 2, u.EXPLOIT_ACCESS: 2}}
-    scenario.scenario_dict[u.PRIVESCS] = {
-        "p_a": {u.PRIVESC_PROCESS: procn[0], u.PRIVESC_OS: None, u.PRIVESC_PROB: 1.0, u.PRIVESC_COST: 1, u.PRIVESC_ACCESS: 2}}
+    n_e, n_p = _add_actions(scenario, sc)
     env = NASimEnv(scenario, fully_obs=False, flat_actions=True, flat_obs=True)
     from nasim.envs.host_vector import HostVector
     HostVector.reset()
@@ -223,12 +240,21 @@ def _layout_failures(sc):
     return bad
 
 
-def _garbage_layout(sc):
-    """an arbitrary previous global layout (another scenario's): the functions must not depend on it"""
+def _garbage_layout(sc, mode="other"):
+    """an arbitrary previous global layout (another scenario's): the functions must not depend on it.  Modes: a
+    completely different one; one with the same bounds and the same NAMES in another order (a scenario that lists its
+    services / OSs / processes differently); one with the same names and other bounds"""
     from nasim.envs.host_vector import HostVector as HV
     HV.reset()
-    HV._initialize((sc["bounds"][0] + 2, sc["bounds"][1] + 3), {"x": False, "y": False, "z": False}, {"p": False},
-                   {"q": False, "r": False, "s": False, "t": False})
+    osn, srvn, procn = names(sc)
+    rev = lambda ns: {n: False for n in reversed(ns)}
+    if mode == "same-names-permuted":
+        HV._initialize(tuple(sc["bounds"]), rev(srvn), rev(osn), rev(procn))
+    elif mode == "same-names-other-bounds":
+        HV._initialize((sc["bounds"][0] + 1, sc["bounds"][1] + 2), rev(srvn), rev(osn), rev(procn))
+    else:
+        HV._initialize((sc["bounds"][0] + 2, sc["bounds"][1] + 3), {"x": False, "y": False, "z": False}, {"p": False},
+                       {"q": False, "r": False, "s": False, "t": False})
 
 
 def layout_oracle(rep, scenario, net, state):
@@ -240,24 +266,25 @@ def layout_oracle(rep, scenario, net, state):
     sc = rep["scenario"]
     fn = rep["qualname"].rsplit(".", 1)[1]
     variant = rep.get("variant", "default")
+    prev = rep.get("prev_layout", "other")
     bounds = tuple(sc["bounds"])
     addrs = [tuple(a) for a in sc["addrs"]]
     h0 = scenario.hosts[addrs[0]]
     bad = []
     close_rows = lambda x, y: len(x) == len(y) and all(abs(float(a) - float(b)) < 1e-6 for a, b in zip(x, y))
     if fn == "_update_vector_idxs":
-        _garbage_layout(sc)
+        _garbage_layout(sc, prev)
         HV.address_space_bounds = bounds
         HV.num_os, HV.num_services, HV.num_processes = sc["n_os"], sc["n_srv"], sc["n_proc"]
         HV._update_vector_idxs()
         bad += [b for b in _layout_failures(sc) if b.startswith("C09.layout-constants")]
     elif fn == "_initialize":
-        _garbage_layout(sc)
+        _garbage_layout(sc, prev)
         HV._initialize(bounds, h0.services, h0.os, h0.processes)
         bad += _layout_failures(sc)
     elif fn == "vectorize":
         vec_kind, cls_kind = variant.split("/")
-        _garbage_layout(sc)
+        _garbage_layout(sc, prev)
         if cls_kind == "initialised":
             HV.reset()
             HV._initialize(bounds, h0.services, h0.os, h0.processes)
@@ -280,7 +307,7 @@ def layout_oracle(rep, scenario, net, state):
                 bad.append(f"C09.row: vector {list(map(float, hv.vector))} expected {_spec_row(sc, i, False)}")
         bad += _layout_failures(sc)
     elif fn == "tensorize":
-        _garbage_layout(sc)
+        _garbage_layout(sc, prev)
         HV.reset()
         st = State.tensorize(net)
         rows = [list(map(float, r)) for r in st.tensor]
@@ -288,7 +315,7 @@ def layout_oracle(rep, scenario, net, state):
             bad.append(f"C09.initial-rows: tensor {rows}")
         bad += _layout_failures(sc)
     elif fn == "generate_initial_state":
-        _garbage_layout(sc)
+        _garbage_layout(sc, prev)
         st = State.generate_initial_state(net)
         rows = [list(map(float, r)) for r in st.tensor]
         if len(rows) != len(addrs) or any(not close_rows(rows[i], _spec_row(sc, i, True)) for i in range(len(addrs))):
@@ -313,11 +340,7 @@ def scalar_oracle(rep, scenario, net, state):
     # sensitive values as the scenario would hold them: the host's value
     sval = {a: float(sc["hval"][addrs.index(a)]) for a in sens}
     scenario.scenario_dict[u.SENSITIVE_HOSTS] = dict(sval)
-    scenario.scenario_dict[u.EXPLOITS] = {
-        "e_a": {u.EXPLOIT_SERVICE: srvn[0], u.EXPLOIT_OS: None, u.EXPLOIT_PROB: 1.0, u.EXPLOIT_COST: 1, u.EXPLOIT_ACCESS: 1},
-        "e_b": {u.EXPLOIT_SERVICE: srvn[-1], u.EXPLOIT_OS: osn[0], u.EXPLOIT_PROB: 0.5, u.EXPLOIT_COST: 2, u.EXPLOIT_ACCESS: 2}}
-    scenario.scenario_dict[u.PRIVESCS] = {
-        "p_a": {u.PRIVESC_PROCESS: procn[0], u.PRIVESC_OS: None, u.PRIVESC_PROB: 1.0, u.PRIVESC_COST: 1, u.PRIVESC_ACCESS: 2}}
+    n_e, n_p = _add_actions(scenario, sc)
     from nasim.envs.network import Network
     net = Network(scenario)
     bad = []
@@ -332,7 +355,7 @@ def scalar_oracle(rep, scenario, net, state):
         elif (int(got[0]), int(got[1])) != (N + 1, W): bad.append(f"C09.observation-dims: {got} expected {(N + 1, W)}")
     elif fn == "get_action_space_size":
         got = scenario.get_action_space_size()
-        if int(got) != N * (4 + 2 + 1): bad.append(f"C11.advertised-size: {got} expected {N * 7}")
+        if int(got) != N * (4 + n_e + n_p): bad.append(f"C11.advertised-size: {got} expected {N * (4 + n_e + n_p)}")
     elif fn in ("host_value_bounds", "host_discovery_value_bounds"):
         got = getattr(scenario, fn)
         vals = sc["hval"] if fn == "host_value_bounds" else sc["dval"]
